@@ -37,6 +37,11 @@ func (g *gen) fault() {
 		return
 	}
 	g.add(jop{K: "killm", Who: who, N: pos})
+	if g.r.Chance(1, 4) { // boundary: the last heartbeat is exactly one deadline old -- not expired yet; one millisecond later it is
+		a := g.deadline*6/10 + g.r.Intn(g.deadline/4+1)
+		g.add(jop{K: "adv", N: a}, jop{K: "hb"}, jop{K: "adv", N: g.deadline - a}, jop{K: "hb"}, jop{K: "tick"}, jop{K: "adv", N: 1}, jop{K: "hb"})
+		return
+	}
 	a := g.deadline*6/10 + g.r.Intn(g.deadline/4+1)
 	g.add(jop{K: "adv", N: a}, jop{K: "hb"}, jop{K: "adv", N: g.deadline - a + 1 + g.r.Intn(g.deadline/2+1)}, jop{K: "hb"})
 }
@@ -179,9 +184,9 @@ func (e eng) Generate(mode, tier string, r *hx.Rand) []*hx.Case {
 	if mode == "slot" {
 		return genSlot(tier, r)
 	}
-	n := 260
+	n := 700
 	if tier == "thorough" {
-		n = 2500
+		n = 8000
 	}
 	var cs []*hx.Case
 	for i := 0; i < n; i++ {
